@@ -98,7 +98,8 @@ class Mut:
             elif op == "truncate":
                 toks = toks[:i]
             elif op == "insert_orphan":
-                toks.insert(i, "{% " + self.pick(["else", "elsif x", "when 1", "break", "continue", "endif", "endfor", "endcase", "endcapture", "plural", "endblock", "endmacro"]) + " %}")
+                toks.insert(i, "{% " + self.pick(["else", "elsif x", "when 1", "break", "continue", "endif", "endfor", "endcase", "endcapture", "plural", "endblock", "endmacro", "block a %}x{% endblock b", "extends 'base' %}{% extends 'base'",
+                                                      "block a %}{% block a %}{% endblock %}{% endblock"]) + " %}")
             elif op == "insert_lexeme":
                 toks.insert(i, " " + self.pick(EXPR_LEXEMES) + " ")
             elif op == "replace_lexeme":
